@@ -28,6 +28,7 @@ type Opts struct {
 	Dump    bool              // stream the state graph's states to OnState
 	JavaOpt string            // extra JAVA_TOOL_OPTIONS
 	KeepOut io.Writer         // if non-nil TLC output is copied there as it arrives
+	Collect string            // glob (relative to the scratch directory) of files to read back after the run
 }
 
 type Result struct {
@@ -41,6 +42,7 @@ type Result struct {
 	TimedOut  bool
 	Wall      time.Duration
 	Dumped    int
+	Files     map[string]string // collected files (Opts.Collect)
 }
 
 var (
@@ -170,6 +172,16 @@ func Run(o Opts, onState func(*tla.State) error) (*Result, error) {
 	derr := <-dumpDone
 	res.Wall = time.Since(start)
 	res.Output = sb.String()
+	if o.Collect != "" {
+		res.Files = map[string]string{}
+		if ms, _ := filepath.Glob(filepath.Join(scratch, o.Collect)); ms != nil {
+			for _, m := range ms {
+				if b, e := os.ReadFile(m); e == nil {
+					res.Files[filepath.Base(m)] = string(b)
+				}
+			}
+		}
+	}
 	if m := reFinal.FindAllStringSubmatch(res.Output, -1); len(m) > 0 {
 		last := m[len(m)-1]
 		res.Generated, _ = strconv.Atoi(last[1])
